@@ -65,6 +65,8 @@ thread_local! {
     /// (owner, action, target, address of the target node) of every Cc captured by a cleaning action:
     /// lets the reachability walk follow pointers that live inside boxed closures
     static CAPS: RefCell<Vec<(u32, u32, u32, usize)>> = const { RefCell::new(Vec::new()) };
+    /// owners whose handle is borrowed by a running Cleaner::register call (it may run user code)
+    static REG_BORROWS: RefCell<Vec<u32>> = const { RefCell::new(Vec::new()) };
     /// ids of node values that exist (created and not yet dropped)
     static LIVE: RefCell<std::collections::BTreeSet<u32>> = const { RefCell::new(std::collections::BTreeSet::new()) };
     static WORLD: Cell<*mut ()> = const { Cell::new(std::ptr::null_mut()) };
@@ -409,8 +411,11 @@ pub fn valid<P: Pad>(call: &Value) -> bool {
     let op = g_str(call, "op");
     let (o, a, b) = (g_u32(call, "o"), g_u32(call, "a"), g_u32(call, "b"));
     let (k, i) = (g_str(call, "k"), g_u32(call, "i") as usize);
+    let borrowed = |x: u32| REG_BORROWS.with(|b| b.borrow().iter().filter(|y| **y == x).count());
     with_world::<P, _>(|w| {
         let has_root = |x: u32| w.roots.get(&x).map_or(false, |v| !v.is_empty());
+        // a handle that can be given up: not the one a running register call borrows
+        let has_free_root = |x: u32| w.roots.get(&x).map_or(0, |v| v.len()) > borrowed(x);
         let node_ok = |x: u32| unsafe { node_ref(w, x) }.is_some();
         let slot_state = |x: u32, k: &str, i: usize| -> Option<bool> {
             let n = unsafe { node_ref(w, x) }?;
@@ -434,12 +439,13 @@ pub fn valid<P: Pad>(call: &Value) -> bool {
             #[cfg(feature = "weak")]
             "newcyc" => !is_live(o),
             #[cfg(feature = "clean")]
-            "register" => node_ok(a) && (g_u32(call, "t") == 0 || has_root(g_u32(call, "t"))) && !w.cleanables.contains_key(&g_u32(call, "c")),
+            "register" => node_ok(a) && (g_u32(call, "t") == 0 || has_free_root(g_u32(call, "t"))) && !w.cleanables.contains_key(&g_u32(call, "c")),
             #[cfg(feature = "clean")]
             "clean" | "dropcl" => w.cleanables.contains_key(&g_u32(call, "c")),
             #[cfg(feature = "weak")]
             "savew" | "wprobe" => !PROVIDED.with(|c| c.get()).is_null() && ctx_ptr_kind(o) == Some(CbKind::Closure),
-            "clone" | "drop" | "mark" | "unwrap" | "fagain" | "downgrade" | "clonen" => has_root(o),
+            "clone" | "mark" | "fagain" | "downgrade" | "clonen" => has_root(o),
+            "drop" | "unwrap" => has_free_root(o),
             "dropn" => w.roots.get(&o).map_or(0, |v| v.len()) > g_u32(call, "n") as usize,
             #[cfg(feature = "weak")]
             "clonewn" => w.wroots.get(&o).map_or(false, |v| !v.is_empty()),
@@ -448,7 +454,7 @@ pub fn valid<P: Pad>(call: &Value) -> bool {
             "clonef" | "clear" => slot_state(a, k, i) == Some(true),
             "set" => has_root(b) && node_ok(a) && slot_state(a, k, i) == Some(false),
             // after giving up one handle of `o` the program must still be able to name `a`
-            "put" => has_root(o) && node_ok(a) && slot_state(a, k, i) == Some(false)
+            "put" => has_free_root(o) && node_ok(a) && slot_state(a, k, i) == Some(false)
                 && (a != o || w.roots.get(&o).map_or(0, |v| v.len()) >= 2 || ctx_ptr(a).is_some()),
             "take" => slot_state(a, k, i) == Some(true),
             "dropval" => w.moved.contains_key(&o),
@@ -808,6 +814,19 @@ pub fn exec<P: Pad>(call: &Value) {
             if let Some(cc) = &cap.inner {
                 caps_add(a, c, t, &**cc as *const Node<P> as usize);
             }
+            REG_BORROWS.with(|b| b.borrow_mut().push(a));
+            struct Unborrow(u32);
+            impl Drop for Unborrow {
+                fn drop(&mut self) {
+                    REG_BORROWS.with(|b| {
+                        let mut b = b.borrow_mut();
+                        if let Some(i) = b.iter().position(|x| *x == self.0) {
+                            b.remove(i);
+                        }
+                    });
+                }
+            }
+            let _ub = Unborrow(a);
             run_op::<P>(call, move || {
                 let np = with_world::<P, _>(|w| unsafe { node_ref(w, a) }.unwrap() as *const Node<P>);
                 let n = unsafe { &*np };
